@@ -38,7 +38,8 @@ CLAIMS["C18"] = dict(
          "from the source each run; model and implementation are compared on every string of <=3 (quick) / <=4 (thorough) "
          "tokens over a 32-token alphabet plus random/Unicode/mutated strings (tokens, parse tree, compiled selector, "
          "error class and offset); the implementation's exception class is checked for parse, select(env) and probe "
-         "creation/activation, including the refusals the property lists, each under every probe_type.",
+         "creation/activation, including the refusals the property lists, each under every probe_type; directed strings "
+         "beyond the exhaustive length (bracketed operands, unimportable references, keyword arguments with non-name keys).",
     design_ref="DESIGN.md section 5, C18",
     note="Modelled, not verified: Python's re engine (the three regexes are re-implemented by hand and validated by the "
          "correspondence), Unicode \\s/\\w classification (a parameter of the model), environment resolution in select() "
@@ -84,7 +85,8 @@ CLAIMS["C07"] = dict(
          "statement (each value once) is proved FALSE of the model by a kernel-evaluated witness (finding F17) which the "
          "check replays on the implementation. Model and implementation are compared on generated call trees with "
          "focus-free and forced-total selectors, raising calls and recursive outermost calls; records are compared "
-         "with an independent reference computed from the call tree.",
+         "with an independent reference computed from the call tree; a focused selector in total mode over calls some of "
+         "which raise before a captured variable is bound: one record per complete call, wherever the incomplete ones fall.",
     design_ref="DESIGN.md section 5, C07",
     note="Known finding F17 (value recorded once per embedding) is listed in known_findings.json; the oracle accepts "
          "exactly that deviation and nothing else. Forced-total focused selectors are compared with the model only.",
@@ -149,11 +151,12 @@ CLAIMS["C17"] = dict(
          "period are run on the implementation: every stage's output is compared with the reduction of exactly the events "
          "delivered during the active period, and with the model's delivery/completion record. The exit hook "
          "(_terminate_global_probes) with one to four global probes left active — called in-process and through a real "
-         "interpreter exit of a child process — : every reduction publishes its one result.",
+         "interpreter exit of a child process — : every reduction publishes its one result. Subscribers that raise when the stream completes (finding F40): "
+         "the deactivation raises exactly then, completes every other stage once and takes the probe down.",
     design_ref="DESIGN.md section 5, C17",
     note="giving.SourceProxy and the reactivex operators are external: modelled (observer list, complete-then-clear-"
-         "then-_exit) and validated by correspondence, not verified. sum/min/max/last of an empty stream (reactivex error) "
-         "are not checked.",
+         "then-_exit) and validated by correspondence, not verified. The value sum/min/max/last of an empty stream "
+         "hand to an error handler (a reactivex error) is not checked.",
 )
 
 CLAIMS["C09"] = dict(
@@ -213,7 +216,8 @@ CLAIMS["C14"] = dict(
          "methods of nested classes sharing their names, a nested function, a decorated function) histories of "
          "activate by name / by reference, deactivate in any order, call, resolve are run; after every step the reference "
          "of EVERY function is resolved on the implementation and in the model, and probes by reference must deliver the "
-         "events of their own function.",
+         "events of their own function. The universe has plain, nested, method, inner-class and functools.wraps-decorated "
+         "(one and two levels) functions.",
     design_ref="DESIGN.md section 5, C14",
     note="codefind is external (modelled, validated by correspondence). Known finding F25: the function object returned "
          "by the non in-place `tooled` decorator is not what its reference resolves to. Holds only after fix commit 9c6aa53.",
